@@ -319,6 +319,10 @@ def serializable_property(name: str, docstring: str | None = None) -> property:
           value: The value to set
         """
         setattr(obj, "_" + name, value)
+        # the "-0000" spelling belongs to the time zone that was parsed, not
+        # to the one being assigned (it would come out as "--100")
+        if hasattr(obj, "_" + name + "_neg_utc"):
+            setattr(obj, "_" + name + "_neg_utc", False)
         obj._needs_serialization = True
 
     def get(obj: "ShaFile") -> object:
